@@ -75,3 +75,64 @@ Proof.
   assert (X : (b =? c) = false) by (apply N.eqb_neq; exact N). rewrite X.
   exists s'. auto.
 Qed.
+
+(* ------------------------------------------------------------------------------------- *)
+(* the capacity test at the end of parseQuotedString / parseNonQuotedString *)
+Definition str_fits (s : bytes) : Prop := N.of_nat (length s) <= max_json_string.
+
+Lemma too_long_false : forall a, too_long a = false <-> str_fits a.
+Proof. intro a. unfold too_long, str_fits. rewrite N.ltb_ge. tauto. Qed.
+
+Lemma too_long_true : forall a, too_long a = true <-> max_json_string < N.of_nat (length a).
+Proof. intro a. unfold too_long. apply N.ltb_lt. Qed.
+
+Lemma str_fits_nil : str_fits [].
+Proof. unfold str_fits, max_json_string. cbn. lia. Qed.
+
+Lemma cap_string_fits : forall acc s, str_fits acc -> cap_string (Ok, acc, s) = (Ok, acc, s).
+Proof. intros acc s H. apply too_long_false in H. unfold cap_string. rewrite H. reflexivity. Qed.
+
+Lemma cap_string_long : forall acc s, max_json_string < N.of_nat (length acc) ->
+  cap_string (Ok, acc, s) = (NoMemory, [], s).
+Proof. intros acc s H. apply too_long_true in H. unfold cap_string. rewrite H. reflexivity. Qed.
+
+Lemma cap_string_err : forall e acc s, e <> Ok -> cap_string (e, acc, s) = (e, acc, s).
+Proof. intros e acc s H. destruct e; try reflexivity. congruence. Qed.
+
+(* the reader state is never touched *)
+Lemma cap_string_state : forall r, snd (cap_string r) = snd r.
+Proof.
+  intros [[e a] s]. unfold cap_string. destruct e; try reflexivity.
+  destruct (too_long a); reflexivity.
+Qed.
+
+Lemma cap_string_inv : forall r e a s, cap_string r = (e, a, s) ->
+  (r = (e, a, s) /\ (e = Ok -> str_fits a)) \/
+  (e = NoMemory /\ a = [] /\ exists acc, r = (Ok, acc, s) /\ max_json_string < N.of_nat (length acc)).
+Proof.
+  intros [[e0 a0] s0] e a s H. unfold cap_string in H.
+  destruct e0; try (left; split; [exact H|]; intro X; subst e; inversion H; fail).
+  - destruct (too_long a0) eqn:T.
+    + right. inversion H; subst. split; [reflexivity|]. split; [reflexivity|].
+      exists a0. split; [reflexivity|]. apply too_long_true. exact T.
+    + left. split; [exact H|]. intros _. inversion H; subst. apply too_long_false. exact T.
+Qed.
+
+Lemma cap_string_ok : forall r a s, cap_string r = (Ok, a, s) -> r = (Ok, a, s) /\ str_fits a.
+Proof.
+  intros r a s H. destruct (cap_string_inv _ _ _ _ H) as [[E F]|[E _]]; [|discriminate E].
+  split; [exact E|exact (F eq_refl)].
+Qed.
+
+(* the error code, seen from the caller: Ok stays Ok or becomes NoMemory, errors are kept *)
+Lemma cap_string_code : forall r e a s, cap_string r = (e, a, s) ->
+  snd r = s /\ (fst (fst r) = e \/ (fst (fst r) = Ok /\ e = NoMemory)).
+Proof.
+  intros r e a s H. destruct (cap_string_inv _ _ _ _ H) as [[E _]|[E [_ [acc [R _]]]]]; subst r; cbn; auto.
+Qed.
+
+Lemma cap_string_ok_fst : forall r, fst (fst (cap_string r)) = Ok -> fst (fst r) = Ok.
+Proof.
+  intros [[e a] s]. unfold cap_string. destruct e; cbn [fst]; try (intro H; exact H).
+  destruct (too_long a); cbn [fst]; [discriminate|reflexivity].
+Qed.
